@@ -20,6 +20,14 @@ Theorem C04_no_replay : forall s t s1 ops t',
   let s2 := run_ops s1 ops in exists c, c <> 0 /\ deliver s2 t' = (s2, c).
 Proof. exact no_replay. Qed.
 
+(* a transaction signed for another network is refused by both entry points and changes nothing *)
+Theorem C04_foreign_chain_rejected : forall s t,
+  t_chain_ok t = false -> deliver s t = (s, cWrongChainID) /\ check s t = cWrongChainID.
+Proof.
+  intros s t H. assert (G : gate s t = Some cWrongChainID) by (unfold gate; rewrite H; reflexivity).
+  split; [unfold deliver|unfold check]; rewrite G; reflexivity.
+Qed.
+
 Example C04_example :
   let s1 := fst (deliver ex_state ex_send) in
   snd (deliver ex_state ex_send) = 0 /\ deliver s1 ex_send = (s1, 101) /\
@@ -29,3 +37,4 @@ Proof. vm_compute. repeat split. Qed.
 Print Assumptions C04_accepted_in_order.
 Print Assumptions C04_nonce_monotone.
 Print Assumptions C04_no_replay.
+Print Assumptions C04_foreign_chain_rejected.
